@@ -4,6 +4,7 @@ import (
 	"fmt"
 	"go/types"
 	"runtime/debug"
+	"sync"
 	"time"
 
 	"github.com/jmattheis/goverter/comments"
@@ -37,7 +38,13 @@ type Options struct {
 	Deadline   time.Duration
 }
 
+// implMu serialises every in-process call into the implementation: goverter is a command line tool and promises
+// nothing about concurrent use of its packages; package-level state in it must not be able to crash the harness.
+var implMu sync.Mutex
+
 func guarded(deadline time.Duration, f func() (map[string][]byte, error)) (files map[string][]byte, err error, stage string) {
+	implMu.Lock()
+	defer implMu.Unlock()
 	type res struct {
 		files map[string][]byte
 		err   error
